@@ -31,7 +31,8 @@ impl MerkleBlock {
         let mut flag_bits_used = 0;
         let mut hashes_used = 0;
         let mut matches = Vec::new();
-        let tree_depth = (self.total_transactions as f32).log(2.).ceil() as usize;
+        // ceil(log2(n)) in integer arithmetic (n >= 1 here); f32 rounding misjudged n just above 2^k, k >= 21
+        let tree_depth = (32 - (self.total_transactions - 1).leading_zeros()) as usize;
         let mut row_len = self.total_transactions as usize;
         let mut total_nodes = row_len;
         while row_len > 1 {
